@@ -93,7 +93,7 @@ class BadType:
                 c.llen(m) == c.llen0(e),
                 T.forall([k], z3.Implies(z3.And(k >= 0, k < c.llen0(e)), c.lget(m, k) == S.btmsg(c.lget0(e, k), cls(d))), patterns=[c.lget(m, k)]),
                 c.dlen(ch) == 0,
-                S.empty_dict(c, ch),
+                S.no_keys(c, ch),
                 m != ch,
             )
         }
@@ -175,7 +175,7 @@ class ValidateConstraints:
             m, ch = c.attr(e, "messages"), c.attr(e, "children")
             out["messages are the failing constraints' messages, in order"] = S.msgs_are_failures(c, m, cs, d, n)
             out["children are the given children errors (same object), else an empty dict"] = z3.If(
-                has_children, ch == ce, z3.And(c.dlen(ch) == 0, S.empty_dict(c, ch))
+                has_children, ch == ce, S.no_keys(c, ch)
             )
         return out
 
